@@ -1277,19 +1277,24 @@ Proof.
   unfold feat_lt. rewrite E, E', Es, Ee, Es', Ee', !fkey_single. unfold pair_lt. cbn [fst snd]. lia.
 Qed.
 
-(* add_cds_feature's bisect insertion keeps the gene list in the "no gene nested" order *)
+(* add_cds_feature's bisect insertion (bisect_right: after the genes that are not greater) keeps the gene list in the
+   "no gene nested" order *)
 Lemma insert_SS l g : SS l -> (forall x, In x l -> simple_gene x = true) -> simple_gene g = true ->
   (forall x, In x l -> le2 x g \/ le2 g x) ->
   exists A B, l = A ++ B /\
-     insert_at (bisect (fun e => feat_lt (gloc e) (gloc g)) l 0) g l = A ++ g :: B /\ SS (A ++ g :: B).
+     insert_at (bisect (fun e => negb (feat_lt (gloc g) (gloc e))) l 0) g l = A ++ g :: B /\ SS (A ++ g :: B).
 Proof.
   intros Hss Hsim Hg Hcmp.
-  destruct (downward_split (fun e => feat_lt (gloc e) (gloc g)) l) as (A & B & E & HA & HB).
+  destruct (downward_split (fun e => negb (feat_lt (gloc g) (gloc e))) l) as (A & B & E & HA & HB).
   { intros a x b y E Hy Hp. subst l.
     assert (Hx : simple_gene x = true) by (apply Hsim, in_or_app; right; now left).
     assert (Hy' : simple_gene y = true) by (apply Hsim, in_or_app; right; now right).
     apply SS_app in Hss. destruct Hss as (_ & [Hxb _] & _). specialize (Hxb y Hy). destruct Hxb as [L1 L2].
-    apply (feat_lt_gene x g Hx Hg). apply (feat_lt_gene y g Hy' Hg) in Hp. lia. }
+    pose proof (feat_lt_gene g x Hg Hx) as Fx. pose proof (feat_lt_gene g y Hg Hy') as Fy.
+    apply negb_true_iff in Hp. apply negb_true_iff.
+    destruct (feat_lt (gloc g) (gloc x)); [|reflexivity].
+    assert (T : feat_lt (gloc g) (gloc y) = true) by (apply Fy; pose proof (proj1 Fx eq_refl); lia).
+    rewrite T in Hp. discriminate. }
   exists A, B. split; [exact E|]. subst l.
   rewrite (bisect_partition _ A B 0%nat HA HB (Nat.le_0_l _)).
   unfold insert_at. rewrite firstn_length_app, skipn_length_app. split; [reflexivity|].
@@ -1297,20 +1302,22 @@ Proof.
   assert (HgB : forall y, In y B -> le2 g y).
   { intros y Hy.
     assert (Hys : simple_gene y = true) by (apply Hsim, in_or_app; now right).
-    pose proof (feat_lt_gene y g Hys Hg) as F. specialize (HB y Hy). cbn beta in HB.
+    pose proof (feat_lt_gene g y Hg Hys) as F. specialize (HB y Hy). cbn beta in HB. apply negb_false_iff in HB.
+    apply F in HB.
     destruct (Hcmp y (in_or_app _ _ _ (or_intror Hy))) as [C|C]; [|exact C].
-    destruct C as [C1 C2]. unfold le2.
-    destruct (Z_lt_ge_dec (gs y) (gs g)) as [Hlt|Hge].
-    - rewrite (proj2 F (or_introl Hlt)) in HB. discriminate.
-    - destruct (Z_lt_ge_dec (ge y) (ge g)) as [Hlt2|Hge2]; [|lia].
-      assert (Ht : feat_lt (gloc y) (gloc g) = true) by (apply F; right; lia).
-      rewrite Ht in HB. discriminate. }
+    destruct C as [C1 C2]. unfold le2. lia. }
   apply SS_app_intro; [exact SA|split; [exact HgB|exact SB]|].
   intros x y Hx [<-|Hy]; [|now apply HAB].
   assert (Hxs : simple_gene x = true) by (apply Hsim, in_or_app; now left).
-  pose proof (HA x Hx) as Hl. cbn beta in Hl. apply (feat_lt_gene x g Hxs Hg) in Hl.
+  pose proof (HA x Hx) as Hl. cbn beta in Hl. apply negb_true_iff in Hl.
+  pose proof (feat_lt_gene g x Hg Hxs) as F.
   destruct (Hcmp x (in_or_app _ _ _ (or_introl Hx))) as [C|C]; [exact C|].
-  destruct C as [C1 C2]. unfold le2. lia.
+  destruct C as [C1 C2]. unfold le2.
+  destruct (Z_lt_ge_dec (gs g) (gs x)) as [Hlt|Hge].
+  - rewrite (proj2 F (or_introl Hlt)) in Hl. discriminate.
+  - destruct (Z_lt_ge_dec (ge g) (ge x)) as [Hlt2|Hge2]; [|lia].
+    assert (Ht : feat_lt (gloc g) (gloc x) = true) by (apply F; right; lia).
+    rewrite Ht in Hl. discriminate.
 Qed.
 
 (* the look-up made by add_protocluster / add_subregion / add_region / add_candidate_cluster *)
